@@ -388,7 +388,7 @@ func exec(line string) (out string) {
 		ver = 3
 	}
 	switch op {
-	case "tree.build2", "tree.build3", "tree.buildrev2":
+	case "tree.build2", "tree.build3", "tree.buildrev2", "tree.buildelems2", "tree.buildelems3":
 		ans, doc := realBuild(ver, fl == "1", pvs)
 		if ans != "" {
 			return ans
